@@ -72,8 +72,12 @@ func checkC12(c *Ctx) {
 		})
 	}
 	checkRekeyOrder(c)
+	// discarded writes leave nothing behind that the next commit would persist (index entries included)
+	checkRollbackFrame(c)
 	c.rule("TABLE-orphan-walk", "orphan diff: skip / descend / report decisions on both trees", 4)
 	checkOrphanWalk(c, "TABLE-orphan-walk")
+	c.rule("OWN-import-write-once", "an imported node is written once, under its final key", 3)
+	checkImportWriteOnce(c, "OWN-import-write-once")
 	checkRebuildDecision(c, "PASS-index-maintenance")
 
 	callTo := func(fs ...*ssa.Function) func(ssa.Instruction) bool {
